@@ -3,8 +3,14 @@ package c02
 
 import (
 	"bytes"
+	"encoding/json"
 	"fmt"
 	"image"
+	"os"
+	"os/exec"
+	"path/filepath"
+	"runtime/debug"
+	"strings"
 	"testing"
 	"time"
 
@@ -383,6 +389,100 @@ func TestHostile(t *testing.T) {
 			nt, labels := classify(b)
 			subRobust.See(c, nt, harness.Hash(b), append(labels, "byte-run")...)
 			subRobust.Run(t, c)
+		}
+	}
+}
+
+// ---------------------------------------------------------------- very long chains, small stack
+
+// DeepCase: a long uninterrupted chain of one small construct, decoded in a child process whose
+// goroutine stacks are limited to 8 MB (a decoder whose stack depth grows with the input dies
+// there with an unrecoverable "stack overflow"; in-process that would take the whole check down).
+type DeepCase struct {
+	Pattern string `json:"pattern"`
+	N       int    `json:"n"`
+}
+
+func deepInput(c DeepCase) []byte {
+	b := []byte{0x89, 'I', 'V', 'G', 0x00}
+	rep := func(unit ...byte) {
+		for i := 0; i < c.N; i++ {
+			b = append(b, unit...)
+		}
+	}
+	switch c.Pattern {
+	case "empty-paths":
+		rep(0xc0, 0x80, 0x80, 0xe1)
+	case "selector-writes":
+		rep(0x05, 0x47)
+	case "register-writes":
+		rep(0x98, 0x7e, 0xa8, 0x04)
+	case "lines":
+		b = append(b, 0xc0, 0x80, 0x80)
+		rep(0x00, 0x90, 0x70)
+		b = append(b, 0xe1)
+	case "close-and-moves":
+		b = append(b, 0xc0, 0x80, 0x80)
+		rep(0xe2, 0x90, 0x70, 0x30, 0x84)
+		b = append(b, 0xe1)
+	case "paths-with-one-line":
+		rep(0xc0, 0x80, 0x80, 0x00, 0x90, 0x70, 0xe1)
+	}
+	return b
+}
+
+func checkDeep(c DeepCase) error {
+	if os.Getenv("VERIF_C02_CHILD") != "" {
+		debug.SetMaxStack(8 << 20)
+		return checkRobust(Case{Bytes: deepInput(c), Cheap: true})
+	}
+	dir, err := os.MkdirTemp("", "c02-deep-")
+	if err != nil {
+		return err
+	}
+	defer os.RemoveAll(dir)
+	doc, _ := json.Marshal(map[string]interface{}{"sub": "deep-chain", "key": "c02/deep-chain", "case": c})
+	file := filepath.Join(dir, "deep.json")
+	if err := os.WriteFile(file, doc, 0o644); err != nil {
+		return err
+	}
+	cmd := exec.Command(os.Args[0])
+	cmd.Env = append(os.Environ(), "VERIF_REPLAY="+file, "VERIF_C02_CHILD=1", "VERIF_REPLAY_DIR="+dir)
+	out, err := cmd.CombinedOutput()
+	if err != nil {
+		tail := string(out)
+		if i := strings.Index(tail, "\ngoroutine "); i > 0 {
+			tail = tail[:i]
+		}
+		if len(tail) > 1500 {
+			tail = tail[:1500]
+		}
+		return harness.Violatef("c02/deep-chain", "decoding a chain of %d %s (%d bytes) in a child process with an 8 MB stack limit failed: %v\n%s", c.N, c.Pattern, len(deepInput(c)), err, tail)
+	}
+	return nil
+}
+
+var subDeep = harness.Define("deep-chain", "uninterrupted chains of 150 000 small constructs (empty paths, one-line paths, selector writes, register writes, line segments, close-and-moves; 0.3-1 MB) through the whole robustness oracle in a child process with goroutine stacks limited to 8 MB: the child must finish normally (stack depth independent of input length)", checkDeep)
+
+func TestDeepChains(t *testing.T) {
+	harness.OnlyFirstShard(t)
+	if os.Getenv("VERIF_C02_CHILD") != "" {
+		t.Skip()
+	}
+	pats := []string{"empty-paths", "paths-with-one-line", "selector-writes", "register-writes", "lines", "close-and-moves"}
+	errs := make([]error, len(pats))
+	done := make(chan int)
+	for i, p := range pats {
+		c := DeepCase{Pattern: p, N: 150000}
+		subDeep.See(c, true, harness.HashJSON(c), "pattern="+p)
+		go func(i int, c DeepCase) { errs[i] = subDeep.Eval(c); done <- i }(i, c)
+	}
+	for range pats {
+		<-done
+	}
+	for _, err := range errs {
+		if err != nil {
+			t.Fatal(err)
 		}
 	}
 }
